@@ -122,6 +122,20 @@ def classify(meta, run, unit_file):
             base_calls = json.load(f).get(meta.get('unit', ''), {})
     except Exception:
         base_calls = {}
+    # a NEW call site of a function under contract (more calls of that name than on the unchanged tree) needs its own termination
+    # argument (a lemma hint): "could not prove termination" in such a function is undecided, not a violation
+    try:
+        with open(os.path.join(VERIF, 'baseline', 'call_counts.json')) as f:
+            base_counts = json.load(f).get(meta.get('unit', ''), {})
+    except Exception:
+        base_counts = {}
+    contracted = set(f.get('name') for f in meta.get('functions', []))
+    new_rec_sites = {}
+    for f in meta.get('functions', []):
+        if f['key'] in base_counts and 'call_counts' in f:
+            more = sorted(n for n, c in f['call_counts'].items() if n in contracted and c > base_counts[f['key']].get(n, 0))
+            if more:
+                new_rec_sites[f['key']] = more
     unit_vocab = set(x for v in base_calls.values() for x in v)
     for f in meta.get('functions', []):
         if f['key'] in base_calls and 'calls' in f:
@@ -176,6 +190,11 @@ def classify(meta, run, unit_file):
                 tool_scoped.append({'tags': info.get('tags', []), 'clause': info['clause'],
                                     'msg': 'fn %s has %d loop(s) but the contract supplies invariants for %d: obligation %s is undecided (not a violation)' %
                                            (info['fn'], unannotated[info['fn']][0], unannotated[info['fn']][1], info['clause'])})
+                continue
+            if re.search(r'could not prove termination|decreases not satisfied', msg) and info['fn'] in new_rec_sites:
+                tool_scoped.append({'tags': info.get('tags', []), 'clause': info['clause'],
+                                    'msg': 'fn %s has new call site(s) of %s, which need their own termination argument: obligation %s is undecided (not a violation)' %
+                                           (info['fn'], ', '.join(new_rec_sites[info['fn']]), info['clause'])})
                 continue
             if info['fn'] in new_trait_calls:
                 tool_scoped.append({'tags': info.get('tags', []), 'clause': info['clause'],
